@@ -304,6 +304,21 @@ def case_binary_mapping(ctx, cls, n, m, offset):
                           % (n, m, N - offset, n * k))
             return
         bitvar = {(i, b): f(i, b) for i in range(1, n + 1) for b in range(k)}
+        if (n + m + offset + len(conds)) % 2:
+            # a caller that builds its own clauses out of what the group hands out, and edits those lists in place:
+            # whatever is returned belongs to the caller, the requirements built afterwards must not depend on it
+            for i in range(1, n + 1):
+                for j in range(1 << k):
+                    st, cl = ctx.call(f.forbid, i, j)
+                    if st == "ok" and isinstance(cl, list):
+                        cl += [10 ** 6, -1]
+                        cl.reverse()
+                        ctx.count("returned_lists_edited_by_caller")
+                st, row = ctx.call(f, i, None)
+                if st == "ok" and isinstance(row, list):
+                    row.append(-(10 ** 6))
+                    del row[0]
+                    ctx.count("returned_lists_edited_by_caller")
         ok = True
         for c in conds:
             if not call_builder(ctx, "force_%s_mapping[binary,%s]" % (c, cls), F,
@@ -312,6 +327,15 @@ def case_binary_mapping(ctx, cls, n, m, offset):
         if not ok:
             continue
         ctx.count("mapping_calls")
+        if F.number_of_variables() != N:
+            ctx.violation("mapping:binary:numvar-changed", "force_%s on a binary mapping %d->%d changed the variable count "
+                          "from %d to %d" % (conds, n, m, N, F.number_of_variables()))
+            continue
+        stray = [l for con in F for l in ([x[1] for x in con[:-2]] if cls == "OPB" else con) if not 1 <= abs(l) <= N]
+        if stray:
+            ctx.violation("mapping:binary:undeclared-variable", "force_%s on a binary mapping %d->%d produced a constraint over "
+                          "literal %r, the formula has %d variables" % (conds, n, m, stray[0], N))
+            continue
 
         def value(a, i):
             return sum(((a >> (bitvar[(i, b)] - 1)) & 1) << b for b in range(k))
